@@ -163,7 +163,8 @@ Proof.
   destruct (es_obj sn) as [e|]; [|discriminate].
   destruct (is_defaulted e) eqn:Ed; cbn [negb] in H; [|discriminate].
   destruct (validate (e_strategy e)) as [[]|c|c] eqn:Ev; try discriminate.
-  - destruct (last_such (rs_up_to_date e) (rs_of_eds e (es_rss sn))) as [u|]; [|discriminate].
+  - destruct (es_fail_list_rs sn); [discriminate|].
+    destruct (last_such (rs_up_to_date e) (rs_of_eds e (es_rss sn))) as [u|]; [|discriminate].
     destruct (select_current _ _ _ u (es_now sn)) as [cur rq].
     match type of H with (if ?b then _ else _) = _ => destruct b; [discriminate|] end.
     destruct (update_instance sn e cur u _ _ _) as [upl|c|c] eqn:Eu; try discriminate.
